@@ -12,10 +12,11 @@ from .lib import *
 
 REQUIRED_WITNESSES = ['consumed', 'trusted', 'rejected']
 BOUNDS = {
-    'quick': '(a) token table = the invitation under its derived token + one symbolic other entry (allowed peer or a second invitation) under a symbolic token; '
+    'quick': '(a) token table = the invitation under its derived token, alone / with an unrelated entry under another token / with its twin (the owner accepted its own '
+             'invitation: [OwnedInvite(x), Invite(x)]) / registered twice; '
              'owned / accepted invitation, with and without default room; every await completes (Ok) or fails (Err) as a choice; '
              '(b) each token type, symbolic identity answer, symbolic expected key, symbolic local key',
-    'thorough': 'same with two other entries in the table',
+    'thorough': 'same as quick',
 }
 ASSUMPTIONS = [
     'every awaited service call (database, peer connection service, event channel) completes at once with a chosen Ok/Err: the coroutine is run to completion in one poll; '
@@ -37,7 +38,9 @@ KEYOK = z3.Function('key_is_wellformed', A, z3.BoolSort())
 def shapes(tier):
     out = []
     for kind in ('OwnedInvite', 'Invite'):
-        for other in (['none', 'allowed', 'invite'] if tier == 'quick' else ['none', 'allowed', 'invite', 'two']):
+        for other in ['none', 'allowed', 'invite', 'twin', 'dup']:
+            if other == 'dup' and kind == 'OwnedInvite':
+                continue        # create_invite draws a fresh id every time: an owned invitation cannot be registered twice
             out.append(dict(part='invite', kind=kind, other=other))
     for tt in ('AllowedPeer', 'OwnedInvite', 'Invite'):
         out.append(dict(part='handshake', token_type=tt))
@@ -148,22 +151,26 @@ def explore_invite(ctx, shape, tier, report):
         itok = S(atom=DERIVE(uid.as_atom()), n=7)
         ctx.add(z3.Or(*[itok.atom == x.as_atom() for x in TOKENS]))
         table = [[itok, Cell(VecV([Cell(clone_val(tt))]))]]
-        if other != 'none':
+        lst = deref(table[0][1].v).elems
+        if other in ('allowed', 'invite'):
+            # an unrelated entry under another token (two different invitations / peers share a 7-byte token only by collision: not constructible, not modelled)
             otok = w.atom('other_token', TOKENS, 'bytes', n=7)
-            if other in ('allowed', 'two'):
+            ctx.assume(znot(seq(otok, itok)))
+            if other == 'allowed':
                 ap = mk_allowed(w, 'old_peer', w.atom('old_peer_key_b64', None, 'str'), w.atom('ap_token', None, 'str'))
                 oe = Enum('TokenType', variants.index('AllowedPeer'), 'AllowedPeer', [Cell(ap)])
             else:
                 oe = Enum('TokenType', variants.index('Invite'), 'Invite', [Cell(mk_invite(w, UIDS[1], 'inv2'))])
-            if ctx.branch(seq(otok, itok)):
-                # same token: the list of that token has two entries, in either order
-                lst = deref(table[0][1].v).elems
-                if ctx.choose(2, 'order') == 0:
-                    lst.append(Cell(oe))
-                else:
-                    lst.insert(0, Cell(oe))
+            table.append([otok, Cell(VecV([Cell(oe)]))])
+        elif other == 'twin':
+            # the owner accepted its own invitation: [OwnedInvite(x), Invite(x)] under the one token (create_invite, then accept_invite)
+            if kind == 'OwnedInvite':
+                lst.append(Cell(Enum('TokenType', variants.index('Invite'), 'Invite', [Cell(mk_invite(w, uid, 'twin'))])))
             else:
-                table.append([otok, Cell(VecV([Cell(oe)]))])
+                lst.insert(0, Cell(Enum('TokenType', variants.index('OwnedInvite'), 'OwnedInvite', [Cell(mk_owned(w, uid, False))])))
+        elif other == 'dup':
+            # the same invitation registered twice (accept_invite called twice with the same bytes)
+            lst.append(Cell(clone_val(tt)))
         fields = w.src.struct_fields('PeerManager')
         vals = {f: Opaque('pm-' + f) for f in fields}
         vals.update(private_room_id=S(lit=b'P' * 16), allowed_token=MapV(table), allowed_peers=VecV([]), owned_invites=VecV([]), invites=VecV([]),
@@ -202,6 +209,13 @@ def explore_invite(ctx, shape, tier, report):
             if got.vname == kind:
                 gid = got.fields[0].v.fields[0].v
                 again = s_eq(gid, uid)
+        # ... and is an entry of the consumed kind for this invitation still registered (behind another entry of the token's list) ?
+        tbl = deref(w.field(pm.v, 'PeerManager', 'allowed_token').v)
+        for tk, tc in tbl.entries:
+            for ec in deref(tc.v).elems:
+                e = ec.v
+                if e.vname == kind:
+                    again = zor(zb(again), zand(seq(tk, itok), seq(e.fields[0].v.fields[0].v, uid)))
         if report.want_sample(True):
             ms = ctx.check_sat(True)
             if ms is not None:
@@ -402,7 +416,7 @@ def scenario(ctx, m, kind, info):
         return sc
     sc['expect']['typed_as_invite_again'] = True
     sc['what'] = 'PeerManager::invite_accepted(%s): %s' % (sh['kind'], info.get('problem'))
-    sc['signature'] = '%s:%s' % (kind, sh['kind'])
+    sc['signature'] = '%s:%s%s' % (kind, sh['kind'], {'dup': ':registered-twice', 'twin': ':with-its-twin'}.get(sh['other'], ''))
     return sc
 
 
